@@ -245,6 +245,14 @@ fn build_content(rng: &mut Rng, size: usize, exact_only: bool) -> Content {
             let _ = store.put(format!("_blob:chunk:sha256:{:016x}{}", rng.next_u64(), i), d);
         }
     }
+    // now and then one value larger than 1 MiB (compressible or not)
+    if size >= 3 && rng.chance(1, 12) {
+        let mut d = TensorData::new();
+        let n = 1_100_000 + rng.below(2_000_000);
+        let payload = if rng.bool() { rng.bytes(n) } else { vec![0x5Au8; n] };
+        d.set("_data", TensorValue::Scalar(ScalarValue::Bytes(payload)));
+        let _ = store.put("big:value", d);
+    }
     // relational tables
     let rel = RelationalEngine::with_store(store.clone());
     let n_tables = if size == 0 { 0 } else { 1 + rng.below(2) };
@@ -261,7 +269,9 @@ fn build_content(rng: &mut Rng, size: usize, exact_only: bool) -> Content {
         if rel.create_table(&name, Schema::new(cols)).is_err() {
             continue;
         }
-        let n_rows = rng.below(size.min(400) + 1);
+        // now and then a table-heavy store: rows far outnumber keys (> 1 MiB of row data)
+        let heavy = t == 0 && size >= 1 && size <= 30 && rng.chance(1, 20);
+        let n_rows = if heavy { 12_000 + rng.below(4_000) } else { rng.below(size.min(400) + 1) };
         for _ in 0..n_rows {
             let mut row: HashMap<String, RVal> = HashMap::new();
             row.insert("a".into(), RVal::Int(*rng.pick(&[i64::MIN, i64::MAX, 0, -1, 7, 42, 1000])));
@@ -274,8 +284,8 @@ fn build_content(rng: &mut Rng, size: usize, exact_only: bool) -> Content {
             if rng.chance(1, 2) {
                 row.insert("d".into(), RVal::Bool(rng.bool()));
             }
-            if rng.chance(1, 2) {
-                let n = rng.below(20);
+            if heavy || rng.chance(1, 2) {
+                let n = if heavy { 80 + rng.below(40) } else { rng.below(20) };
                 row.insert("e".into(), RVal::Bytes(rng.bytes(n)));
             }
             let _ = rel.insert(&name, row);
@@ -357,6 +367,7 @@ fn build_slab_only(rng: &mut Rng) -> Content {
             ColumnDef::new("active", ColumnType::Bool, true),
             ColumnDef::new("raw", ColumnType::Bytes, true),
         ]);
+        let schema = if rng.bool() { schema.with_primary_key("id") } else { schema };
         let rel = &store.router().relations;
         let _ = rel.create_table("st0", schema.clone());
         if rng.bool() {
@@ -375,6 +386,15 @@ fn build_slab_only(rng: &mut Rng) -> Content {
         }
         if rng.bool() {
             let _ = rel.create_index("st0", "id");
+        }
+        // schema evolution after the rows exist: a new column with / without default, a dropped
+        // column (also the one the primary key or the index was declared on)
+        if rng.chance(1, 3) {
+            let dflt = ColumnValue::Int(7);
+            let _ = rel.add_column("st0", ColumnDef::new("extra", ColumnType::Int, true), if rng.bool() { Some(&dflt) } else { None });
+        }
+        if rng.chance(1, 3) {
+            let _ = rel.drop_column("st0", *rng.pick(&["id", "name", "score", "raw"]));
         }
         desc.push(format!("slab tables ({} rows)", n));
     }
